@@ -20,7 +20,7 @@ import (
 // lose the process at a physical write boundary chosen among ALL physical
 // writes of the history (saves, intermediate prune flushes, index
 // clears/rebuilds), restart with a drawn option vector and re-check everything;
-// a read-only loader is also run atomically at a drawn write boundary, in the
+// a read-only loader is also run atomically after every physical write, in the
 // middle of whatever operation performs that write.
 
 func c26Opts(thorough bool) hGenOpts {
@@ -38,10 +38,12 @@ func c26Exec(ctx *vk.Ctx, c hCase) error {
 		return err
 	}
 	defer r.close()
+	r.probeEveryWrite()
 	if err := r.runHistory(c); err != nil {
 		return err
 	}
 	r.classes()
+	ctx.ClassIf(r.boundaryReads > 0, "write-boundary-readers")
 	ctx.Note("fastReads", r.fastReads)
 	ctx.Note("staleCandidates", r.staleReads)
 	// non-trivial: >=2 versions and at least one fast-index-enabled read of a
@@ -54,7 +56,7 @@ func TestC26_History(t *testing.T) {
 	var th bool
 	vk.Run(t, vk.Spec[hCase]{
 		ID: "C26", Name: "TestC26_History",
-		Rule: "rapid: C23-style histories biased to the fast index (on in ~60% of configs, toggled at reopens so that versions are committed without index maintenance and rebuilt later), plus read-only loader handles (LoadReadonly, own fast option, GetImmutableUnregistered at any retained version, reads interleaved with later commits/prunes), held registered snapshots, LoadVersion(old) episodes; every Get/Has/iteration equals the model for the version read; non-trivial = >=2 versions and a fast-index-enabled read of a key whose value changed after the version being read",
+		Rule: "rapid: C23-style histories biased to the fast index (on in ~60% of configs, toggled at reopens so that versions are committed without index maintenance and rebuilt later), plus read-only loader handles (LoadReadonly, own fast option, GetImmutableUnregistered at any retained version, reads interleaved with later commits/prunes), held registered snapshots, LoadVersion(old) episodes, and a fresh read-only loader (fast on) run after every physical write of the history; every Get/Has/iteration equals the model for the version read; non-trivial = >=2 versions and a fast-index-enabled read of a key whose value changed after the version being read",
 		Setup: func(r *vk.Rec) { th = r.Thorough() },
 		Draw:  func(rt *rapid.T) hCase { return hDrawHistory(rt, c26Opts(th)) },
 		Exec:  c26Exec,
@@ -67,7 +69,6 @@ type c26Case struct {
 	H       hCase `json:"h"`
 	K       int   `json:"k"`       // crash after K%W physical writes (W = writes of the uncrashed run)
 	Restart hCfg  `json:"restart"` // configuration of the process started after the crash
-	Probe   int   `json:"probe"`   // a read-only loader runs right after physical write #(Probe%W+1)
 }
 
 // c26DryRun executes the history without faults and returns its number of
@@ -180,22 +181,13 @@ func c26CrashExec(ctx *vk.Ctx, c c26Case) error {
 	if w > 0 {
 		crashAt = c.K % w
 		r.db.limit = crashAt
-		probe := c.Probe%w + 1
-		var hookErr error
-		r.db.hook = func(n int) {
-			if n == probe && hookErr == nil {
-				hookErr = r.boundaryCheck()
-				ctx.Class("write-boundary-reader")
-				ctx.ClassIf(r.pendingSave != nil, "write-boundary-reader-inside-save")
-				ctx.ClassIf(r.pruneTo > 0, "write-boundary-reader-inside-prune")
-			}
-		}
+		r.probeEveryWrite()
 		crashed := false
 		for i := range c.H.Ops {
 			op := &c.H.Ops[i]
 			err := r.guard(func() error { return r.step(i, op) })
-			if hookErr != nil {
-				return hookErr
+			if r.hookErr != nil {
+				return r.hookErr
 			}
 			if err == errHCrashed {
 				if crashed {
@@ -229,7 +221,11 @@ func c26CrashExec(ctx *vk.Ctx, c c26Case) error {
 	if err := r.finish(); err != nil {
 		return err
 	}
+	if r.hookErr != nil {
+		return r.hookErr
+	}
 	r.classes()
+	ctx.ClassIf(r.boundaryReads > 0, "write-boundary-readers")
 	ctx.Note("writes", w)
 	ctx.Note("crashAt", crashAt)
 	ctx.NTIf(w > 0 && r.saves >= 1 && r.fastReads > 0)
@@ -247,17 +243,16 @@ func c26DrawCrash(rt *rapid.T, th bool) c26Case {
 		H:       hDrawHistory(rt, o),
 		K:       rapid.IntRange(0, 1<<16).Draw(rt, "k"),
 		Restart: hDrawCfg(rt, "restart", 7),
-		Probe:   rapid.IntRange(0, 1<<16).Draw(rt, "probe"),
 	}
 }
 
-const c26CrashRule = "a fast-index-biased history run over a harness-owned dbm.DB that counts physical writes (direct writes and each non-empty Batch.Write as one atomic unit) and kills the process at write K (nothing later reaches the DB); the model rolls the interrupted op back (save: not saved; prune: a whole-version prefix may be gone; rebuild: no logical change), a new process starts with a drawn option vector (fast toggled or not), every retained version and the working tree are re-read through writer, snapshots and a read-only loader, and the rest of the history continues; one read-only loader also runs atomically at a drawn physical write boundary inside the operation performing it; non-trivial = the history writes, saved >=1 version and performed fast-index-enabled reads"
+const c26CrashRule = "a fast-index-biased history run over a harness-owned dbm.DB that counts physical writes (direct writes and each non-empty Batch.Write as one atomic unit) and kills the process at write K (nothing later reaches the DB); the model rolls the interrupted op back (save: not saved; prune: a whole-version prefix may be gone; rebuild: no logical change), a new process starts with a drawn option vector (fast toggled or not), every retained version and the working tree are re-read through writer, snapshots and a read-only loader, and the rest of the history continues; a read-only loader (fast index on) also runs atomically after EVERY physical write, inside the operation performing it; non-trivial = the history writes, saved >=1 version and performed fast-index-enabled reads"
 
 func TestC26_Crash(t *testing.T) {
 	var th bool
 	vk.Run(t, vk.Spec[c26Case]{
 		ID: "C26", Name: "TestC26_Crash",
-		Rule:  "rapid (crash point and probe point drawn): " + c26CrashRule,
+		Rule:  "rapid (crash point drawn): " + c26CrashRule,
 		Setup: func(r *vk.Rec) { th = r.Thorough() },
 		Draw:  func(rt *rapid.T) c26Case { return c26DrawCrash(rt, th) },
 		Exec:  c26CrashExec,
@@ -287,7 +282,6 @@ func TestC26_CrashSweep(t *testing.T) {
 		for k := 0; k < w; k++ {
 			ck := c
 			ck.K = k
-			ck.Probe = k/2 + i // probe point walks along, mostly before the crash point
 			points++
 			if r.Do(ck, func(ctx *vk.Ctx) error { return c26CrashExec(ctx, ck) }) != nil {
 				return
